@@ -51,6 +51,30 @@ var (
 
 func init() {
 	log.RegisterPlugin[RecAppender]("Rec", log.PluginTypeAppender)
+	log.RegisterPlugin[GateLayout]("GateLayout", log.PluginTypeLayout)
+}
+
+// GateLayout is a layout plugin that parks its caller (the async worker) until released; it lets the
+// harness single-step loggers whose appenders cannot be replaced (the rolling-file logger).
+type GateLayout struct {
+	log.TextLayout
+}
+
+// LayoutGate is the gate all GateLayout instances use (nil channels = pass through).
+var LayoutGate struct {
+	Gate    chan struct{}
+	Entered chan int64
+}
+
+func (l *GateLayout) ToBytes(e *log.Event) []byte {
+	id := EventID(e)
+	if LayoutGate.Entered != nil {
+		LayoutGate.Entered <- id
+	}
+	if LayoutGate.Gate != nil {
+		<-LayoutGate.Gate
+	}
+	return l.TextLayout.ToBytes(e)
 }
 
 // Appender returns the most recently started recording appender of that name.
